@@ -22,6 +22,7 @@ def run(ctx, prog):
     from rules import unicode
     unicode.run(ctx, prog)
     rule = "R-ESC"
+    tables = {}
     fns = prog.q("EscapeSequence::escapeTable")
     ctx.floor(rule, "escapeTable", len(fns), 1)
     for fn in fns[:1]:
@@ -55,6 +56,7 @@ def run(ctx, prog):
                "literal of %d bytes, offsets %d (serialize) / %d (parse)" % (len(lit), ser_off, par_off))
         ser, dup1, _ = pairs(ser_off)
         par, dup2, _ = pairs(par_off)
+        tables["ser"], tables["par"] = ser, par
         bij = not dup1 and not dup2 and len(set(par.values())) == len(par)
         ctx.ob(rule, "escape pairs are a bijection", bij, fn.where, "%d pairs" % len(par))
         ctx.ob(rule, "serializing table is exactly RFC 8259's escape set", ser == RFC, fn.where,
@@ -66,50 +68,101 @@ def run(ctx, prog):
         ctx.ob(rule, "parsing table is RFC 8259's set plus '/' and the single quote", par == want, fn.where,
                "" if par == want else "parsing pairs %s" % sorted((chr(k), v) for k, v in par.items()))
         ctx.ob(rule, "both directions read the same literal", all(ser.get(k) == par.get(k) for k in ser), fn.where, "")
-    # which table each direction uses
-    for name, flag in (("EscapeSequence::escapeChar", 1), ("EscapeSequence::unescapeChar", 0)):
-        for fn in prog.q(name)[:1]:
-            arg = None
-            stride = None
-            cmp_idx = ret_idx = None
-            for i, st in fn.calls():
-                if st["callee"]["q"].endswith("escapeTable"):
-                    arg = fn.const(st["args"][0])
-            for i in fn.walk():
-                st = fn.s(i)
-                if st["k"] == "CompoundAssignOperator" and st["op"] == "+=":
-                    stride = fn.const(st["c"][1])
-                if st["k"] == "BinaryOperator" and st["op"] in ("==", "!="):
-                    for a, b in ((st["c"][0], st["c"][1]), (st["c"][1], st["c"][0])):
-                        sa = fn.s(fn.strip(a, casts=True))
-                        sb = fn.s(fn.strip(b, casts=True))
-                        if sa["k"] == "ArraySubscriptExpr" and sb["k"] == "DeclRefExpr" and sb["ref"]["k"] == "parm":
-                            cmp_idx = fn.const(sa["c"][1])
-                if st["k"] == "ReturnStmt" and st["c"]:
-                    r = fn.s(fn.strip(st["c"][0], casts=True))
-                    if r["k"] == "ArraySubscriptExpr":
-                        ret_idx = fn.const(r["c"][1])
-            want_cmp, want_ret = (1, 0) if flag else (0, 1)
-            ok = arg == flag and stride == 2 and cmp_idx == want_cmp and ret_idx == want_ret
-            ctx.ob(rule, "%s scans %s pairs: compare [%d], return [%d], stride 2" % (name.split("::")[-1], "serializing" if flag else "parsing", want_cmp, want_ret), ok, fn.where,
-                   "" if ok else "found table=%s stride=%s compare=[%s] return=[%s]" % (arg, stride, cmp_idx, ret_idx))
-    # writeChar
-    for fn in prog.q("TextFormatter::writeChar")[:1]:
-        # path on which the byte is zero writes the literal \u0000
-        lits = []
-        for i, st in fn.calls():
-            if st["callee"]["q"].endswith("writeRaw"):
-                a = fn.s(fn.strip(st["args"][0], casts=True))
-                if a["k"] == "StringLiteral":
-                    lits.append((i, bytes(a["bytes"]).rstrip(b"\0")))
-        ok = len(lits) == 1 and lits[0][1] == b"\\u0000"
-        gz = False
-        if ok:
-            for cond, pol in fn.guards_of(lits[0][0]):
-                c = fn.s(fn.strip(cond, casts=True))
-                if c["k"] == "DeclRefExpr" and c["ref"]["k"] == "parm" and pol is False:
-                    gz = True
-        ctx.ob(rule, "writeChar writes \\u0000 exactly for the NUL byte", ok and gz, fn.where,
-               "" if ok and gz else "NUL is not written as the literal \\u0000 on the c == 0 arm")
+    # the two scan loops and writeChar, evaluated for every character (lib/pieces.py)
+    if tables.get("ser") is not None:
+        semantic(ctx, prog, rule, tables["ser"], tables["par"])
     ctx.floor(rule, "writeChar", len(prog.q("TextFormatter::writeChar")), 1)
     ctx.doc(rule, "shared escape table vs RFC 8259; scan loops; NUL literal")
+
+
+def semantic(ctx, prog, rule, ser, par):
+    """escapeChar / unescapeChar / writeChar for every value of their
+    parameter, by partitioned abstract interpretation: the result is the
+    table's (whatever the shape of the scan loop), nothing is read beyond the
+    table literal."""
+    from lib import pieces
+    from lib.pieces import Aff
+
+    def s8(v):
+        return v - 256 if v > 127 else v
+
+    def evaluate(fn, hooks=None):
+        tk = fn.params[0].get("tk", "s8")
+        dom0 = pieces.type_range(tk)
+
+        def body(box):
+            m = pieces.Machine(prog, box, hooks=hooks or {})
+            m.fields = {}
+            fr = pieces.Machine.Frame(fn)
+            fr.env[fn.params[0]["d"]] = Aff.sym("c")
+            try:
+                r = m.run_fn(fr)
+            except pieces.Hazard as h:
+                return ("hazard", str(h), None)
+            return ("ok", r, list(m.out))
+        return list(pieces.cover({"c": dom0}, body))
+    # serializing: byte -> letter ; parsing: letter -> byte
+    ser_rev = {s8(v): k for k, v in ser.items()}
+    for name, table in (("EscapeSequence::escapeChar", ser_rev), ("EscapeSequence::unescapeChar", {s8(k): s8(v) for k, v in par.items()})):
+        for fn in sorted(prog.q(name), key=lambda f: f.key)[:1]:
+            bad = []
+            try:
+                res = evaluate(fn)
+            except pieces.Unsupported as ex:
+                ctx.ob(rule, "%s returns the table's answer for every character" % name.split("::")[-1], None, fn.where, str(ex))
+                continue
+            for box, (tag, r, out) in res:
+                lo, hi = box["c"]
+                if tag == "hazard":
+                    bad.append("for c = %d: %s" % (lo, r))
+                    continue
+                for c in ([lo] if lo == hi else [lo, hi]):
+                    want = table.get(c, 0)
+                    got = r.at({"c": c}) if r is not None else None
+                    if got is None or (got - want) % 256:
+                        bad.append("%s(%r) = %s, the table says %r" % (name.split("::")[-1], chr(c % 256), got, want))
+                if lo != hi and (not r.is_const() or any(lo <= k <= hi for k in table)):
+                    bad.append("result is not constant on [%d, %d]" % (lo, hi))
+            ctx.ob(rule, "%s returns the table's answer for every character" % name.split("::")[-1], not bad, fn.where,
+                   "%d pieces cover the parameter type" % len(res) if not bad else "; ".join(bad[:3]))
+        ctx.floor(rule, name.split("::")[-1], len(prog.q(name)), 1)
+    # writeChar: '\\' + letter for a table byte, the literal \u0000 for NUL, the byte itself otherwise
+    for fn in sorted(prog.q("TextFormatter::writeChar"), key=lambda f: f.key)[:1]:
+        def hook_raw(m, fr, i, st):
+            v = m.ev(fr, st["args"][0])
+            if isinstance(v, pieces.Ptr):
+                k = 0
+                while True:
+                    cell = m.load(fr, ("cell", v.arr, v.idx + k), fr.fn.loc(i))
+                    if cell.is_const() and cell.c == 0:
+                        break
+                    m.out.append(cell)
+                    k += 1
+                    if k > 16:
+                        raise pieces.Hazard("unterminated literal")
+            else:
+                m.out.append(m.as_aff(v))
+            return None
+        bad = []
+        try:
+            res = evaluate(fn, hooks={"writeRaw": hook_raw})
+        except pieces.Unsupported as ex:
+            ctx.ob(rule, "writeChar escapes exactly the table's bytes and NUL", None, fn.where, str(ex))
+            continue
+        for box, (tag, r, out) in res:
+            lo, hi = box["c"]
+            if tag == "hazard":
+                bad.append("for c = %d: %s" % (lo, r))
+                continue
+            for c in ([lo] if lo == hi else [lo, hi]):
+                if c == 0:
+                    want = list(b"\\u0000")
+                elif c in ser_rev:
+                    want = [ord("\\"), ser_rev[c]]
+                else:
+                    want = [c % 256]
+                got = [v.at({"c": c}) % 256 for v in out]
+                if got != want:
+                    bad.append("byte 0x%02X is written as %r, expected %r" % (c % 256, bytes(got), bytes(want)))
+        ctx.ob(rule, "writeChar escapes exactly the table's bytes and NUL", not bad, fn.where,
+               "%d pieces cover the parameter type" % len(res) if not bad else "; ".join(bad[:3]))
